@@ -67,15 +67,20 @@ class FreshDB:
     somewhere else and drop the pooled connection.
     """
 
-    def __init__(self, keep=False):
+    def __init__(self, keep=False, init=True):
         self.keep = keep
         self.dir = None
+        self.init = init
 
     def __enter__(self):
         import wn
         close_pool()
         self.dir = mkdtemp('wndb')
         wn.config.data_directory = str(self.dir)
+        if self.init:
+            # create and initialise the database through a public read-only call, so that the
+            # schema creation is not attributed to the first operation a monitor brackets
+            wn.lexicons()
         return self
 
     @property
